@@ -34,7 +34,7 @@ def _run(prog, chk):
     chk.not_decided = ["that every extracted chain recomputes the root", "canonical forest shape", "index bound of insertNode's stack slot "
                        "(relies on the level invariant checked above)"]
     chk.rule("C16.reset", "reset re-creates the state of a new block signer, including the order of leaf processors", floor=4)
-    chk.rule("C16.levels", "nodes are created / joined only under valid levels and within the configured maximum", floor=7)
+    chk.rule("C16.levels", "nodes are created / joined only under valid levels and within the configured maximum", floor=8)
     chk.rule("C16.path", "path extraction: direction, sibling, level correction", floor=6)
 
     # ------------------------------------------------------------------ reset vs new
@@ -135,6 +135,16 @@ def _run(prog, chk):
     chk.ob("C16.levels", "addLeaf:closing-level", w is None,
            "a leaf is accepted only if the tree can still be closed with a root level within 0..0xff (maximum configured or not): otherwise closing "
            "fails after the forest has been taken apart and every accepted leaf loses its proof", loc=fa.loc(), fn=fa, path=None if w is None else path_lines(fa, w))
+    fpn = prog.fn("processAndInsertNode", "tree_builder.c")
+    ins = {b for b, i, n in fpn.calls("insertNode")}
+    if not ins:
+        raise AnalysisBroken("processAndInsertNode: insertion not found")
+    exact = g_cmp({"<=", "<"}, lambda f, x: "calculateHighestLevel(" in show(f.deep(x), f) and "->level" in show(f.deep(x), f),
+                  lambda f, x: is_int(f.resolve(strip(x))) and strip(f.resolve(strip(x)))["v"] <= 0x100, "closing height (of the processed node) within the level range")
+    w = must_pass(fpn, ins, exact)
+    chk.ob("C16.levels", "processAndInsertNode:closing-level", w is None,
+           "the node that is inserted (leaf plus what the processors put on top) is checked against the end of the level range with its actual "
+           "level: the estimate made before the processors ran does not know it", loc=fpn.loc(), fn=fpn, path=None if w is None else path_lines(fpn, w))
     hl = [n for b, i, n in fa.calls("calculateHighestLevel")]
     okov = bool(hl) and "levelWithOverhead(" in provenance(fa, *[(b, i) for b, i, n in fa.calls("calculateHighestLevel")][0], hl[0]["a"][1])
     chk.ob("C16.levels", "addLeaf:overhead", okov, "the height check uses the level including the leaf processors' overhead", loc=fa.loc(), fn=fa)
@@ -514,7 +524,7 @@ def process_table(prog, chk):
     bp, np_ = fp.params[0]["n"], fp.params[1]["n"]
     for nproc, emit in [(0, ()), (1, (1,)), (1, (0,)), (2, (1, 1)), (2, (1, 0)), (2, (0, 1)), (3, (1, 1, 1))]:
         nj = sum(emit)
-        fails = [None, ("insert",)] + [("proc", k) for k in range(nproc)] + [("join", k) for k in range(nj)]
+        fails = [None, ("insert",), ("level",)] + [("proc", k) for k in range(nproc)] + [("join", k) for k in range(nj)]
         for fail in fails:
             lists = {"CB": [Ptr("cb%d" % k) for k in range(nproc)]}
             from ksirules.interp import list_overrides
@@ -546,6 +556,7 @@ def process_table(prog, chk):
                 I.write(p, "%s->leftChild" % nm, args[2])
                 I.write(p, "%s->rightChild" % nm, args[3])
                 I.write(p, "%s->parent" % nm, 0)
+                I.write(p, "%s->level" % nm, 41 + k)
                 for a in (args[2], args[3]):
                     if isinstance(a, Ptr):
                         I.write(p, "%s->parent" % a.what, Ptr(nm))
@@ -566,9 +577,13 @@ def process_table(prog, chk):
             def insert(I, p, node, args, fail=fail):
                 state["inserted"] = args[1]
                 return 0x104 if fail == ("insert",) else 0
+            def highest(I, p, node, args, fail=fail):
+                state["level_of"] = args[1]
+                return 0x100 if fail == ("level",) else 7
             ov = {"KSI_TreeBuilderLeafProcessorList_length": length, "KSI_TreeBuilderLeafProcessorList_elementAt": element_at, "KSI_TreeNode_join": join,
-                  "KSI_TreeNode_free": free_, "insertNode": insert}
-            inputs = {bp: Ptr("B"), np_: Ptr("N"), "B->ctx": Ptr("ctx"), "B->hsr": Ptr("hsr"), "B->cbList": Ptr("CB"), "N->parent": 0, "N->leftChild": 0, "N->rightChild": 0}
+                  "KSI_TreeNode_free": free_, "insertNode": insert, "calculateHighestLevel": highest}
+            inputs = {bp: Ptr("B"), np_: Ptr("N"), "B->ctx": Ptr("ctx"), "B->hsr": Ptr("hsr"), "B->cbList": Ptr("CB"), "N->parent": 0, "N->leftChild": 0, "N->rightChild": 0,
+                      "N->level": 40}
             for k in range(nproc):
                 inputs["cb%d->fn" % k] = Ptr("fn%d" % k)
                 inputs["cb%d->c" % k] = Ptr("c%d" % k)
@@ -579,7 +594,7 @@ def process_table(prog, chk):
             paths = I.run()
             chk.paths += len(paths)
             inst = "processAndInsertNode[%d processor(s), emitting %s,%s]" % (nproc, "".join(str(e) for e in emit) or "-", " nothing fails" if fail is None else
-                                                                              " %s%s fails" % (fail[0], "" if len(fail) == 1 else " %d" % (fail[1] + 1)))
+                                                                              (" the closing level would leave the range" if fail == ("level",) else " %s%s fails" % (fail[0], "" if len(fail) == 1 else " %d" % (fail[1] + 1))))
             if len(paths) != 1 or paths[0].undetermined:
                 raise AnalysisBroken("processAndInsertNode: evaluation not determined for %s: %s" % (inst, [q.undetermined[:1] for q in paths]))
             q = paths[0]
@@ -592,9 +607,9 @@ def process_table(prog, chk):
                 # local nodes that exist at the failure point: every emitted processor node and every join result made so far
                 made = set()
                 for k in range(nproc):
-                    if emit[k] and (fail[0] in ("insert",) or (fail[0] == "proc" and k < fail[1]) or (fail[0] == "join" and sum(emit[:k]) <= fail[1])):
+                    if emit[k] and (fail[0] in ("insert", "level") or (fail[0] == "proc" and k < fail[1]) or (fail[0] == "join" and sum(emit[:k]) <= fail[1])):
                         made.add("P%d" % k)
-                njdone = nj if fail[0] == "insert" else (fail[1] if fail[0] == "join" else sum(emit[:fail[1]]))
+                njdone = nj if fail[0] in ("insert", "level") else (fail[1] if fail[0] == "join" else sum(emit[:fail[1]]))
                 made |= {"J%d" % k for k in range(njdone)}
                 ok = q.ret not in (0, TOP) and "N" not in flat and not twice and set(flat) == made and I.read(q, "N->parent") in (0,)
                 what = ("expected an error, the caller's node neither released nor left linked, local nodes %s released once each; source: status %s, released %s%s, "
